@@ -294,6 +294,7 @@ bool session_file_storage::write_all(int fd,void const *vbuf,int n)
 		if(res <= 0)
 			return false;
 		n-=res;
+		buf+=res;
 	}
 	return true;
 }
@@ -308,6 +309,7 @@ bool session_file_storage::read_all(int fd,void *vbuf,int n)
 		if(res <= 0)
 			return false;
 		n-=res;
+		buf+=res;
 	}
 	return true;
 }
